@@ -3,7 +3,7 @@
     rules (Gen/Gen_Options.v).  The refutations are stated for the parse program / writer rules of
     the pinned tree ([pinned_prog], [pinned_wrules]): each is the reason for one fix: commit. *)
 From Coq Require Import List String ZArith Bool.
-From Inovesa Require Import Model.OptionsTypes Model.Options Gen.Gen_Options Proofs.OptionsP Proofs.OptionsThm Proofs.OptionsRT Proofs.OptionsRT2.
+From Inovesa Require Import Model.OptionsTypes Model.Options Gen.Gen_Options Proofs.OptionsP Proofs.OptionsThm Proofs.OptionsRT Proofs.OptionsRT2 Proofs.OptionsRT3.
 Import ListNotations.
 Local Open Scope string_scope.
 
@@ -57,14 +57,32 @@ Print Assumptions save_reload_roundtrip_refuted_H4.
     the member has no getter) *)
 Definition exempt : list string := ["config"; "run_anyway"; "ForceOpenGLVersion"].
 
-(** Per-run reflection obligations: table/program and writer rules read from the source pass the checkers
-    (C13 checker: the config option is a command-line option; every alias is in the skip list; floating
-    values are written with max_digits10; every current typed option outside [exempt] is not skipped and
-    has a writer branch - in particular the vector type of BunchCurrent). *)
+(** Per-run reflection obligations: table/program and writer rules read from the source pass the checkers.
+    C13 checker, since the third wave [checker13s] (Proofs/OptionsRT3.v): the config option is a command-line option that
+    takes a string, is no information switch and is in [exempt]; floating values are written with max_digits10; every
+    current typed option outside [exempt] is not skipped and has a writer branch - in particular the vector type of
+    BunchCurrent; EVERY NAME SAVE() MAY WRITE IS A TYPED OPTION OF THE CONFIG-FILE DESCRIPTION (the file parser knows it).
+    Until the third wave this theorem stated [checker13], which also demanded the legacy names in save()'s skip list.
+    That is no longer an obligation: a legacy name never has an entry in a state that parse() returns
+    ([legacy_names_never_saved]), those entries of the skip list are dead code and removing them is harmless.  What the
+    old checkers accepted the new one accepts ([checker13_13b_13s]); the old obligation is kept as
+    [generated_rules_accepted_13]. *)
 Theorem generated_rules_accepted :
-  checker gen_table gen_prog = true /\ checker13 gen_table gen_wrules gen_prog exempt = true.
+  checker gen_table gen_prog = true /\ checker13s gen_table gen_wrules gen_prog exempt = true.
 Proof. vm_compute. split; reflexivity. Qed.
 Print Assumptions generated_rules_accepted.
+
+Definition rules_with (skip : list string) (comment : list string) : wrules :=
+  mkW skip (w_alpha_name gen_wrules) (w_alpha_var gen_wrules) (w_alpha_when_zero gen_wrules) (w_types gen_wrules)
+      (w_precise gen_wrules) comment.
+
+(** the obligation of the first two waves: [checker13] accepts the generated rules (with the legacy names in the skip
+    list, where they are on the current tree; put there if a later tree drops them), so that the theorems stated with
+    [checker13] - [save_reload_roundtrip_partial], [C13_reload_runs], [C13_save_reload_roundtrip], [..._no_fs] - apply *)
+Theorem generated_rules_accepted_13 :
+  checker13 gen_table (rules_with (map fst (prog_aliases gen_prog) ++ w_skip gen_wrules) (w_comment gen_wrules)) gen_prog exempt = true.
+Proof. vm_compute. reflexivity. Qed.
+Print Assumptions generated_rules_accepted_13.
 
 (** the pinned writer rules do not pass (no vector branch, 6 digits) *)
 Example pinned_rules_rejected : checker13 gen_table pinned_wrules gen_prog exempt = false.
@@ -237,3 +255,114 @@ Example roundtrip_no_fs_example :
   | _ => False
   end.
 Proof. vm_compute. repeat split; try reflexivity. eexists. eexists. repeat split; reflexivity. Qed.
+
+(* ============================================================================================ *)
+(** * Third wave (family opts2): [save_reload_roundtrip] *)
+
+(** broken rule sets are rejected: the pinned rules (6 digits, no vector branch); a writer that skips one more option;
+    a writer that writes the `config` line as an option (not a name of the config-file description: the reload would
+    fail with "unknown option").  A harmless one is accepted: the three legacy names removed from the skip list. *)
+Example broken_rules_rejected :
+  checker13s gen_table pinned_wrules gen_prog exempt = false
+  /\ checker13s gen_table (rules_with ("GridSize" :: w_skip gen_wrules) (w_comment gen_wrules)) gen_prog exempt = false
+  /\ checker13s gen_table (rules_with (w_skip gen_wrules) []) gen_prog exempt = false
+  /\ checker13s gen_table
+       (rules_with (filter (fun n => negb (mem n (map fst (prog_aliases gen_prog)))) (w_skip gen_wrules)) (w_comment gen_wrules))
+       gen_prog exempt = true
+  /\ rules_with (w_skip gen_wrules) (w_comment gen_wrules) = gen_wrules.
+Proof. vm_compute. repeat split; reflexivity. Qed.
+
+(** C13.1.  For every table / parse program / writer rules accepted by the checkers, every token oracle [wf] that satisfies
+    the re-reading law, every invocation for which parse() runs, and every token [ftok] naming the saved file:
+    `inovesa --config <saved>` RUNS, and every current typed option outside [exempt] has the member value it had
+    after the original invocation, provided the alpha0 rule does not fire for it (H3': the option is not alpha0, or the
+    member the rule looks at - the synchrotron frequency - is zero / non-zero as the rule's polarity says; with a
+    synchrotron frequency alpha0 is unused and written as 0 by design, [save_reload_roundtrip_refuted_alpha0_with_fs]).
+
+    The hypotheses that are not checkers are about the token oracle only (ostream << and lexical_cast are glue):
+    - [reparse_lawb T wf W]: the tokens save() writes WITHOUT a token that was read standing behind them - a default of the
+      table, the implicit `true` of a switch, the literal 0 of the alpha0 rule - are well formed for the option's type;
+      for a token that was read save() writes that token ([C13_fmt_reparse]: max_digits10 digits denote the value they
+      were made from), which was well formed when it was read ([C13_entries_wellformed]);
+    - [wf TString ftok]: the name of the saved file is accepted as a string (every word is).
+    Both are evaluated by the model driver for the oracle of every generated case (`law true` is required); both are
+    needed ([reload_needs_law]; a file name the oracle refuses makes the reload fail by definition of parse).
+    The two hypotheses of [save_reload_roundtrip_partial] - "the reload does not fail" and H0 - are gone. *)
+Theorem save_reload_roundtrip :
+  forall (T : list opt) (P : prog) (W : wrules) (ex : list string),
+  checker T P = true -> checker13s T W P ex = true ->
+  forall wf zerotok round6, reparse_lawb T wf W = true ->
+  forall cli fs dflt s ftok, parse T wf P cli fs dflt = Run s -> wf TString ftok = true ->
+  exists s', reload T wf W zerotok round6 P s ftok = Run s' /\
+    forall o, In o T -> is_canon o = true -> typed o = true -> mem (o_name o) ex = false ->
+      (String.eqb (o_name o) (w_alpha_name W)
+       && Bool.eqb (var_is_zero zerotok (s_vars s) (w_alpha_var W)) (w_alpha_when_zero W)) = false ->
+      s_vars s' (o_var o) = s_vars s (o_var o).
+Proof.
+  intros T P W ex CK C13 wf z r LAW cli fs dflt s ftok H Wf.
+  exact (save_reload_roundtrip_thm T wf W z r P ex CK C13 LAW cli fs dflt s ftok H Wf).
+Qed.
+Print Assumptions save_reload_roundtrip.
+
+(** the saved file never contains a legacy name (which is why the skip list need not name them) *)
+Theorem legacy_names_never_saved :
+  forall (T : list opt) (P : prog), checker T P = true ->
+  forall wf cli fs dflt s a c, parse T wf P cli fs dflt = Run s -> In (a, c) (prog_aliases P) -> s_vm s a = None.
+Proof. intros T P CK wf cli fs dflt s a c H I. exact (alias_not_in_vm T wf P cli fs dflt s a c CK H I). Qed.
+Print Assumptions legacy_names_never_saved.
+
+(** hypotheses satisfiable and conclusion not vacuous on the generated table: `inovesa -V <t5> -I <t21> <t22> --config f`,
+    f = { RFVoltage=<t7>; steps=<t8>; BeamEnergy=<t100> }: the reload runs; V_RF (command line over a legacy line),
+    steps_per_Ts (legacy line), E_0 (file), I_b (vector) and alpha0 (default; no synchrotron frequency) come back *)
+Example save_reload_roundtrip_example :
+  match parse gen_table wf_all gen_prog [(Short "V", [5%Z]); (Short "I", [21%Z; 22%Z]); (Long "config", [9%Z])]
+          (fun _ => FFile [("RFVoltage", [7%Z]); ("steps", [8%Z]); ("BeamEnergy", [100%Z])]) FNoFile with
+  | Run s =>
+    var_is_zero zero_w (s_vars s) (w_alpha_var gen_wrules) = true /\
+    match reload gen_table wf_all gen_wrules zero_w round6_w gen_prog s 999%Z with
+    | Run r => (s_vars r "V_RF", s_vars r "steps_per_Ts", s_vars r "E_0", s_vars r "I_b", s_vars r "alpha0")
+               = (Some [5%Z], Some [8%Z], Some [100%Z], Some [21%Z; 22%Z], s_vars s "alpha0")
+    | _ => False
+    end
+  | _ => False
+  end.
+Proof. vm_compute. split; reflexivity. Qed.
+
+(** C13.1 composed with the precedence of C20: the saved file re-read together with extra command-line options,
+    `inovesa <extra options> --config <saved>` ([reload_with]).  If the extra options alone are an acceptable invocation
+    (they run in a directory without any config file: no unknown name, no malformed value, no information switch, no
+    `--config`), the re-reading invocation RUNS; a current typed option outside [exempt] that is among the extra options
+    has the member value the extra options alone give it, every other one has the member value of the original
+    invocation (for alpha0 under H3', as in [save_reload_roundtrip]). *)
+Theorem save_reload_with_overrides :
+  forall (T : list opt) (P : prog) (W : wrules) (ex : list string),
+  checker T P = true -> checker13s T W P ex = true ->
+  forall wf zerotok round6, reparse_lawb T wf W = true ->
+  forall cli fs dflt s ftok cli2 s2,
+  parse T wf P cli fs dflt = Run s -> wf TString ftok = true ->
+  parse T wf P cli2 (fun _ => FNoFile) FNoFile = Run s2 ->
+  exists s' items2, reload_with T wf W zerotok round6 P s ftok cli2 = Run s' /\ resolve_all T cli2 = Some items2 /\
+    forall o, In o T -> is_canon o = true -> typed o = true -> mem (o_name o) ex = false ->
+      (occurs (o_name o) items2 = true -> s_vars s' (o_var o) = s_vars s2 (o_var o))
+      /\ (occurs (o_name o) items2 = false ->
+          (String.eqb (o_name o) (w_alpha_name W)
+           && Bool.eqb (var_is_zero zerotok (s_vars s) (w_alpha_var W)) (w_alpha_when_zero W)) = false ->
+          s_vars s' (o_var o) = s_vars s (o_var o)).
+Proof.
+  intros T P W ex CK C13 wf z r LAW cli fs dflt s ftok cli2 s2 H Wf H2.
+  exact (roundtrip_override T wf W z r LAW P ex CK C13 cli fs dflt s ftok cli2 s2 H Wf H2).
+Qed.
+Print Assumptions save_reload_with_overrides.
+
+(** `inovesa -V <t5> -I <t21> <t22> -N <t4>`, saved, then `inovesa -V <t6> -N <t4> --config saved`: V_RF is <t6>, the bunch
+    currents and the steps come back *)
+Example save_reload_with_overrides_example :
+  match parse gen_table wf_all gen_prog [(Short "V", [5%Z]); (Short "I", [21%Z; 22%Z]); (Short "N", [4%Z])] (fun _ => FNoFile) FNoFile with
+  | Run s =>
+    match reload_with gen_table wf_all gen_wrules zero_w round6_w gen_prog s 999%Z [(Short "V", [6%Z]); (Short "N", [4%Z])] with
+    | Run r => (s_vars r "V_RF", s_vars r "I_b", s_vars r "steps_per_Ts") = (Some [6%Z], Some [21%Z; 22%Z], Some [4%Z])
+    | _ => False
+    end
+  | _ => False
+  end.
+Proof. vm_compute. reflexivity. Qed.
